@@ -228,3 +228,14 @@ Theorem C06_leaf_ids_are_C01_blob_ids : forall (H : bytes -> bytes -> bytes),
      end).
 Proof. exact leaf_ids_are_C01_blob_ids. Qed.
 Print Assumptions C06_leaf_ids_are_C01_blob_ids.
+
+(* The path normalisation never does more than strip trailing slashes: the
+   path handed to the OS is a prefix of the given one followed only by '/',
+   never empty.  No component is removed or collapsed ("X/.." is NOT
+   simplified lexically): which directory a path designates - symbolic links
+   in it, "..", "." - is resolved by the operating system (exercised by the
+   correspondence check over spellings of the root path, not modelled). *)
+Theorem C06_norm_path_only_strips_slashes : forall p : bytes,
+  (exists k, p = norm_path p ++ repeat SLASH k) /\ (p <> [] -> norm_path p <> []).
+Proof. exact norm_path_only_strips_slashes. Qed.
+Print Assumptions C06_norm_path_only_strips_slashes.
